@@ -288,3 +288,15 @@ Proof.
     rewrite (apply_updates_nth (fun c => nassoc c kw) (sorted_pending kw) (fun c v => In_sorted_pending c v kw)) by (cbn; exact Hlt).
     rewrite mem_sorted_pending, mem_nkeys_nassoc, Hv. reflexivity.
 Qed.
+
+Lemma NoDup_nkeys_filter {X} (f : nat * X -> bool) l : NoDup (nkeys l) -> NoDup (nkeys (filter f l)).
+Proof.
+  induction l as [|[k v] l IH]; cbn; [auto|]. intros H. inversion H as [|? ? Hk Hnd]; subst.
+  destruct (f (k, v)); cbn; [|auto]. constructor; [|auto].
+  intros Hi. apply Hk. unfold nkeys in *. rewrite in_map_iff in *. destruct Hi as (e & E & Hi).
+  apply filter_In in Hi. exists e. tauto.
+Qed.
+
+(* the column keywords of a set call *)
+Lemma NoDup_set_kw kvs : NoDup (nkeys (filter (fun cv : nat * val => is_col (fst cv)) (as_dict kvs))).
+Proof. apply NoDup_nkeys_filter. apply NoDup_as_dict. Qed.
